@@ -953,3 +953,100 @@ def _(repo):
                                   "self._eval_heterogeneous_parameters(t, x, u, params, self.eq_params_heterogeneity)",
                                   "new_args = args[:-1] + (_params,)", "res = evaluate(*new_args)"])
     return f"Definition gen_heterogeneity_wiring : bool := {'true' if (ok and ok2) else 'false'}."
+
+
+# =============================================================== G_losses (C13)
+LODE = "jinns/loss/_LossODE.py"
+LPDE = "jinns/loss/_LossPDE.py"
+header("G_losses", ZHDR)
+
+
+def tr_block2(stmts, cur, target, classify, test_env):
+    """tr_block extended with `for x in ...: if bad(x): raise` loops (one boolean atom per loop)"""
+    if not stmts:
+        return cur
+    s, rest = stmts[0], stmts[1:]
+    if isinstance(s, ast.For):
+        inner = [b for b in s.body if not (isinstance(b, ast.Expr) and isinstance(b.value, ast.Constant))]
+        if len(inner) == 1 and isinstance(inner[0], ast.If) and any(isinstance(x, ast.Raise) for x in inner[0].body) and not inner[0].orelse:
+            key = "for " + ast.unparse(s.target) + " in " + ast.unparse(s.iter) + ": " + ast.unparse(inner[0].test)
+            if key not in test_env:
+                raise Untranslatable("unknown validation loop: " + key[:80])
+            return f"(if {test_env[key]} then WErr else {tr_block2(rest, cur, target, classify, test_env)})"
+        raise Untranslatable("loop outside the grammar")
+    if isinstance(s, ast.Assign) and len(s.targets) == 1 and ast.unparse(s.targets[0]) == target:
+        return tr_block2(rest, classify(s.value), target, classify, test_env)
+    if isinstance(s, ast.Raise):
+        return "WErr"
+    if isinstance(s, ast.If):
+        t = zexpr(s.test, test_env)
+        return (f"(if {t} then {tr_block2(list(s.body) + rest, cur, target, classify, test_env)} "
+                f"else {tr_block2(list(s.orelse) + rest, cur, target, classify, test_env)})")
+    if isinstance(s, (ast.Assign, ast.Expr, ast.AugAssign)):
+        return tr_block2(rest, cur, target, classify, test_env)
+    raise Untranslatable("statement outside the grammar: " + ast.unparse(s)[:60])
+
+
+def _set_loss_weights(repo, rel, cls, tag):
+    f = find_func(parse(repo, rel), "set_loss_weights", cls)
+    loop = one([s for s in f.body if isinstance(s, ast.For) and ast.unparse(s.target) == "k"], "for k in fields(...)")
+    if ast.unparse(loop.iter) != "fields(loss_weights_init)":
+        raise Untranslatable("iteration changed")
+
+    def classify(v):
+        u = ast.unparse(v)
+        table = {"v": "WUseDict", "{kk: 0 for kk in self.dynamic_loss_dict.keys()}": "WZerosEquations", "{kk: 0 for kk in self.u_dict.keys()}": "WZerosUnknowns",
+                 "{kk: v for kk in self.dynamic_loss_dict.keys()}": "WConstEquations", "{kk: v for kk in self.u_dict.keys()}": "WConstUnknowns"}
+        if u not in table:
+            raise Untranslatable("unknown weight expansion " + u)
+        return table[u]
+    scalar = "not isinstance({0}, (int, float)) and (not (isinstance({0}, Array) and ({0}.shape == (1,) or len({0}.shape) == 0)))"
+    env = {"isinstance(v, dict)": "is_dict", "v is None": "is_none", "k.name == 'dyn_loss'": "is_dyn",
+           "v.keys() == self.dynamic_loss_dict.keys()": "keys_are_equations", "v.keys() == self.u_dict.keys()": "keys_are_unknowns",
+           scalar.format("v"): "(negb scalar_ok)",
+           "for vv in v.values(): " + scalar.format("vv"): "(negb values_ok)"}
+    body = [s for s in loop.body if not (isinstance(s, ast.Assign) and ast.unparse(s.targets[0]) == "v")]
+    term = tr_block2(body, "WUnset", "_loss_weights[k.name]", classify, env)
+    return (f"Definition gen_sys_weights_{tag} (is_dict is_none is_dyn keys_are_equations keys_are_unknowns scalar_ok values_ok : bool) : wexp :=\n  {term}.")
+
+
+@anchor("G_losses", "sys_weights_ode")
+def _(repo):
+    return _set_loss_weights(repo, LODE, "SystemLossODE", "ode")
+
+
+@anchor("G_losses", "sys_weights_pde")
+def _(repo):
+    return _set_loss_weights(repo, LPDE, "SystemLossPDE", "pde")
+
+
+@anchor("G_losses", "sys_evaluate")
+def _(repo):
+    out = []
+    f = find_func(parse(repo, LPDE), "evaluate", "SystemLossPDE")
+    bs = [ast.unparse(v) for v in assigns(f, "batches")]
+    tb = ast.unparse(one(assigns(f, "times_batch"), "times_batch")); ob = [ast.unparse(v) for v in assigns(f, "omega_batch")]
+    order = {"(times_batch, omega_batch)": "true", "(omega_batch, times_batch)": "false"}
+    if len(bs) != 2 or bs[0] != "(omega_batch,)" or bs[1] not in order or tb != "batch.times_x_inside_batch[:, 0:1]" or "batch.times_x_inside_batch[:, 1:]" not in ob:
+        raise Untranslatable("batches tuples changed: " + str(bs))
+    out.append(f"Definition gen_sys_pde_time_first : bool := {order[bs[1]]}.")
+    src = ast.unparse(f)
+    pure = "params_dict = _update_eq_params_dict(params_dict, batch.param_batch_dict)" in src and "params_dict.eq_params[k] =" not in src
+    ok = ("dynamic_loss_apply(dyn_loss.evaluate, self.u_dict, batches, _set_derivatives(params_dict, self.derivative_keys_dyn_loss.dyn_loss), vmap_in_axes_x_or_x_t + vmap_in_axes_params, loss_weight" in src
+          and "jax.tree_util.tree_map(dyn_loss_for_one_key, self.dynamic_loss_dict, self._loss_weights['dyn_loss']" in src
+          and "jax.tree_util.tree_reduce(lambda x, y: x + y, jax.tree_util.tree_leaves(dyn_loss_mse_dict))" in src
+          and "total_loss += mse_dyn_loss" in src and "res_dict['dyn_loss'] += mse_dyn_loss" in src)
+    g = find_func(parse(repo, LODE), "evaluate", "SystemLossODE")
+    gsrc = ast.unparse(g)
+    pure_o = "params_dict = _update_eq_params_dict(params_dict, batch.param_batch_dict)" in gsrc
+    ok_o = ("dynamic_loss_apply(dyn_loss.evaluate, self.u_dict, (temporal_batch,), _set_derivatives(params_dict, self.derivative_keys_dyn_loss.dyn_loss), vmap_in_axes_t + vmap_in_axes_params, loss_weight" in gsrc
+            and "total_loss += mse_dyn_loss" in gsrc and "res_dict['dyn_loss'] += mse_dyn_loss" in gsrc)
+    out.append(f"Definition gen_sys_param_batch_is_functional : bool := {'true' if (pure and pure_o) else 'false'}.")
+    out.append(f"Definition gen_sys_evaluate_wiring : bool := {'true' if (ok and ok_o) else 'false'}.")
+    c = find_func(parse(repo, LU), "constraints_system_loss_apply")
+    csrc = ast.unparse(c)
+    ok_c = ("loss_weights = loss_weights | {'dyn_loss': {k: 0.0 for k in u_constraints_dict.keys()}}" in csrc
+            and "jax.tree_util.tree_map(lambda w, l: w * l, res_dict_for_u, loss_weights_for_u)" in csrc
+            and "lambda mse: jax.tree_util.tree_reduce(lambda x, y: x + y, jax.tree_util.tree_leaves(mse))" in csrc)
+    out.append(f"Definition gen_sys_constraints_wiring : bool := {'true' if ok_c else 'false'}.")
+    return "\n".join(out)
